@@ -22,10 +22,11 @@
     CascadeFilter.__call__     reduce(lambda data, filt: filt(data), self.callables, seq)
     CascadeFilter.numpoly      reduce(operator.mul, (filt.numpoly for filt in self.callables))   (denpoly alike)
     ParallelFilter.__call__    zero per input when empty, else reduce(operator.add, (filt(arg0) for filt in self.callables))
-    ParallelFilter.numpoly     reduce(operator.add, self).numpoly                                 (denpoly alike)
-        -- as coded (`polysC`): Python's `+` between the raw ELEMENTS: between two filter lists that is
-        -- list concatenation (defect D22); the repair (`polys`) adds the parts as filters:
-        -- reduce(operator.add, (ZFilter(filt.numpoly, filt.denpoly) for filt in self.callables))
+    ParallelFilter._sum_filter reduce(operator.add, (ZFilter(filt.numpoly, filt.denpoly) for filt in self.callables))
+    ParallelFilter.numpoly     self._sum_filter().numpoly                                         (denpoly alike)
+        -- as coded since the repair of D22 (/repo 04c3c25): `FL.polys`.  The OLD shape
+        -- `reduce(operator.add, self).numpoly` (Python's `+` between the raw ELEMENTS: two filter lists are
+        -- concatenated) is kept as the regression model `FL.polysC` with its refutation theorem
     LinearFilter.__eq__        isinstance(other, LinearFilter) and numpoly == and denpoly ==
     LinearFilter.__ne__        not (self == other)
     list.__eq__ / list.__ne__  CPython `list_richcompare`: lengths, then the first pair of items with
@@ -232,9 +233,9 @@ def FLs.linear : FLs α → Bool
 end
 
 mutual
-/-- `(obj.numpoly, obj.denpoly)` with `ParallelFilter` repaired (D22): the parts are added as filters,
-`reduce(operator.add, (ZFilter(filt.numpoly, filt.denpoly) for filt in self.callables))`.
-`CascadeFilter` is as coded.  `reduce` without initial value: TypeError without parts. -/
+/-- `(obj.numpoly, obj.denpoly)` AS CODED (since /repo 04c3c25, the repair of D22): `ParallelFilter` adds the
+parts as filters, `reduce(operator.add, (ZFilter(filt.numpoly, filt.denpoly) for filt in self.callables))`;
+`CascadeFilter` multiplies the polynomials.  `reduce` without initial value: TypeError without parts. -/
 def FL.polys : FL α → Except PyErr (MPoly α × MPoly α)
   | .leaf f => .ok (f.num, f.den)
   | .num c => do
@@ -297,7 +298,8 @@ def reduceAdd (ps : FLs α) : Except PyErr (Option (FL α)) :=
       let r ← t.foldlM pyAdd p
       pure (some r)
 
-/-- `(obj.numpoly, obj.denpoly)` AS CODED.  `ParallelFilter`: the attribute of whatever
+/-- REGRESSION MODEL (the code before the repair of D22; refuted by `parallel_of_lists_as_coded_wrong`):
+`(obj.numpoly, obj.denpoly)` with `ParallelFilter`: the attribute of whatever
 `reduce(operator.add, self)` returned — a filter, a number (AttributeError) or another filter list
 (its own property: the recursion is on a NEW object, hence the fuel; `none` = out of fuel). -/
 def FL.polysC : Nat → FL α → Except PyErr (Option (MPoly α × MPoly α))
